@@ -375,3 +375,63 @@ def overload_program(overloads, calls, caller_at=None):
         return program(body, ''.join(fs))
     main = 'empty @is_you() {' + LOCALS + body + '\n}\n'
     return PRELUDE + HELPERS + ''.join(fs[:caller_at]) + main + ''.join(fs[caller_at:])
+
+
+# ------------------------------------------------------------- return paths
+def return_cases():
+    """value-returning functions whose body can / cannot complete without returning: every loop kind, exit statement and
+    handler shape.  yields (tag, source, must_accept).  A body that can complete for SOME input must be rejected; the
+    accepted counterparts differ from a rejected one in exactly the construct that closes the gap."""
+    dz = 'int !dz(int k) { !truth_is_defeat(k == 1); return k; }\n'
+    cases = [
+        # --- must be rejected: the end of the body is reachable
+        ('loop_may_not_run_while', 'int rv(int q) { while (q > 0) { return 1; } }', False),
+        ('loop_may_not_run_for', 'int rv(int q) { for (int i = 0; i < q; i += 1) { return i; } }', False),
+        ('loop_body_returns_on_both_arms', 'int rv(int q) { while (q > 0) { if (q > 1) { return 1; } else { return 2; } } }', False),
+        ('loop_continue_then_return', 'int rv(int q) { while (q > 0) { q -= 1; if (q == 2) { continue; } return q; } }', False),
+        ('infinite_loop_with_break', 'int rv(int q) { while (true) { if (q > 0) { break; } return 1; } }', False),
+        ('infinite_for_with_break', 'int rv(int q) { for (;;) { if (q > 0) { break; } q += 1; } }', False),
+        ('infinite_loop_with_nested_break', 'int rv(int q) { while (true) { { if (q > 0) { { break; } } } return 1; } }', False),
+        ('if_without_else', 'int rv(int q) { if (q > 0) { return 1; } }', False),
+        ('if_with_empty_else', 'int rv(int q) { if (q > 0) { return 1; } else { } }', False),
+        ('else_only', 'int rv(int q) { if (q > 0) { } else { return 1; } }', False),
+        ('nested_block_if', 'int rv(int q) { { if (q > 0) { return 1; } } }', False),
+        ('constant_false_while', 'int rv(int q) { while (false) { return 1; } }', False),
+        ('constant_false_for', 'int rv(int q) { for (; false; ) { return 1; } }', False),
+        ('folded_false_while', 'int rv(int q) { while (1 > 2) { return 1; } }', False),
+        ('loop_then_nothing', 'int rv(int q) { while (q > 0) { q -= 1; } }', False),
+        ('empty_body', 'int rv(int q) { }', False),
+        ('only_a_call', 'int rv(int q) { write(q); }', False),
+        ('inner_infinite_loop_left_by_break_of_outer', 'int rv(int q) { while (q > 0) { while (true) { return 1; } } }', False),
+        ('stop_handler_falls_through', dz + 'int @rv(int q) { try { return !dz(q); } stop { } }', False),
+        ('stop_handler_writes', dz + "int @rv(int q) { try { return !dz(q); } stop { write('x'); } }", False),
+        ('undo_handler_falls_through', dz + 'int @rv(int q) { try { return !dz(q); } undo { } }', False),
+        ('try_body_falls_through', dz + 'int @rv(int q) { try { !dz(q); } stop { return 0; } }', False),
+        ('try_statement_defeat_handler_falls', "int @rv(int q) { try { !truth_is_defeat(q == 1); return 2; } stop { write('x'); } }", False),
+        ('try_in_loop_break', dz + 'int @rv(int q) { while (true) { try { return !dz(q); } stop { break; } } }', False),
+        ('preempt_only_return', 'int !rv(int q) { preempt { return 1; } }', False),
+        # --- must be accepted: no path reaches the end
+        ('ok_infinite_while_returning', 'int rv(int q) { while (true) { if (q > 0) { return 1; } q += 1; } }', True),
+        ('ok_infinite_for_returning', 'int rv(int q) { for (;;) { q += 1; if (q > 9) { return q; } } }', True),
+        ('ok_infinite_loop_continue', 'int rv(int q) { while (true) { q += 1; if (q < 9) { continue; } return q; } }', True),
+        ('ok_if_else_both_return', 'int rv(int q) { if (q > 0) { return 1; } else { return 2; } }', True),
+        ('ok_nested_if_else', 'int rv(int q) { if (q > 0) { if (q > 1) { return 1; } else { return 2; } } else { return 3; } }', True),
+        ('ok_return_after_loop', 'int rv(int q) { while (q > 0) { return 1; } return 0; }', True),
+        ('ok_return_after_if', 'int rv(int q) { if (q > 0) { return 1; } return 0; }', True),
+        ('ok_empty_infinite_loop', 'int rv(int q) { while (true) { } }', True),
+        ('ok_terminal_call', 'int rv(int q) { if (q > 0) { return 1; } all_is_win(); }', True),
+        ('ok_terminal_broken', 'int rv(int q) { all_is_broken(); }', True),
+        ('ok_inner_break_binds_inner', 'int rv(int q) { while (true) { while (q > 0) { break; } return 1; } }', True),
+        ('ok_block_return', 'int rv(int q) { { return 1; } }', True),
+        ('ok_try_both_return', dz + 'int @rv(int q) { try { return !dz(q); } stop { return 0; } }', True),
+        ('ok_try_undo_both_return', dz + 'int @rv(int q) { try { return !dz(q); } undo { return 0; } }', True),
+        ('ok_try_then_return', dz + "int @rv(int q) { try { return !dz(q); } stop { write('x'); } return 5; }", True),
+        ('ok_defeat_ends_function', 'int !rv(int q) { if (q > 0) { return 1; } !is_defeat(); }', True),
+        ('ok_empty_function_may_fall', "empty rv(int q) { if (q > 0) { write('x'); } }", True),
+        ('ok_empty_function_loop', 'empty rv(int q) { while (q > 0) { return; } }', True),
+    ]
+    for tag, fsrc, ok in cases:
+        you = '@rv' in fsrc
+        defeat = '!rv' in fsrc
+        call = 'write(@rv(iv));' if you else ('try { write(!rv(iv)); } undo { }' if defeat else ('rv(iv);' if fsrc.split('rv(')[0].strip().endswith('empty') or fsrc.startswith('empty') else 'write(rv(iv));'))
+        yield 'returns/' + tag, program('\n    ' + call, fsrc + '\n'), ok
